@@ -1056,6 +1056,7 @@ def c07_route(R):
                 f"{q}: simplified result goes through _handle_annotations unless the simplifier handled annotations",
                 f"{q} uses the result of simplifications.simplify without _handle_annotations: a rewrite that drops "
                 f"an argument also drops that argument's non-eliminatable and relocatable annotations",
+                construct=util.anon(st, fn),
             )
     R.need(n >= 2, f"only {n} call sites of simplifications.simplify found")
 
